@@ -14,8 +14,14 @@
       `Features.Diagnostics` off returns before the load;
     * DidClose (`dropDocVersion`) deletes the number and the tree;
     * Completion, Hover, Definition, References (also Rename and inline completion) read
-      `resolved[uri]` through `getWorkspaceResolved` when the workspace has no resolved journal
-      and fall back to the document alone when there is none.
+      `resolved[uri]` through `getWorkspaceResolved` / `resolvedForDocument` /
+      `resolvedWithPrimaryPath` when the workspace has no resolved journal or — all but the two
+      completions — the document is outside the workspace root's include tree
+      (`workspaceResolvedFor`), and fall back to the document alone when there is none.
+    * DidOpen, like didChange and DidSave, also passes the text to `workspace.UpdateFile` and
+      drops the file from the loader cache before the task is started: handler-thread work
+      under `Workspace.mu` / `Loader.mu` (lock discipline: HL.Generated.Access), not part of
+      this model (HL/Model/WsDocs.lean models it).
 
   `load` (text ↦ include tree) and the handlers are parameters: the theorems hold for every
   instance.  Core Lean only (the driver imports the guard).
